@@ -28,6 +28,9 @@ check('C31', title='Timer events fire no earlier than scheduled and in due order
       parts=[dict(name='main', harness='c31_timer', variant='schedp', inproc=True,
                   quick=dict(args=['maxlen=3', 'bound=2'], deadline=60), thorough=dict(args=['maxlen=4', 'bound=3'], deadline=420)),
              dict(name='len5', harness='c31_timer', variant='schedp', inproc=True, thorough_only=True, thorough=dict(args=['minlen=5', 'maxlen=5', 'bound=1'], deadline=400)),
+             # the same scripts in units of one second (granularity, delays, intervals, sleeps, horizon): intervals of 1, 2 and 5 s — arithmetic on large millisecond counts
+             dict(name='seconds', harness='c31_timer', variant='schedp', inproc=True,
+                  quick=dict(args=['maxlen=2', 'bound=1', 'scale=1000'], deadline=60), thorough=dict(args=['maxlen=3', 'bound=2', 'scale=1000'], deadline=420)),
              dict(name='tsan', harness='c31_timer', variant='tsan', inproc=True,
                   quick=dict(args=['maxlen=2', 'bound=1'], deadline=90), thorough=dict(args=['maxlen=3', 'bound=2'], deadline=500)),
              dict(name='asan', harness='c31_timer', variant='sched', inproc=True,
